@@ -689,9 +689,14 @@ class Evaluator:
         return UNKNOWN
 
     def ev_unknown(self, t, ctx):
+        if t.args == ('keyerror',):
+            return BOT          # the missing entry of a literal dispatch table: a KeyError, the path does not continue
         return UNKNOWN
 
-    ev_nondet = ev_caught = ev_unknown
+    def ev_nondet(self, t, ctx):
+        return UNKNOWN
+
+    ev_caught = ev_nondet
 
     def ev_exc(self, t, ctx):
         return AV(kind=frozenset(['exc']))
